@@ -502,6 +502,10 @@ func (m *Mux) serveHTTP(w http.ResponseWriter, r *http.Request) error {
 			Error:     herr,
 		})
 	}
+	if !stream.sentHeader {
+		// Nothing was written: header metadata still has to reach the client.
+		setOutgoingHeader(w.Header(), stream.header)
+	}
 	if herr != nil {
 		if !stream.sentHeader {
 			w.Header().Set("Content-Encoding", "identity") // try to avoid gzip
